@@ -19,6 +19,7 @@ CONCRETE_WATCHDOG_S = 30
 F = Fraction
 
 META = dict(
+    technique='symbolic execution of advanced.py through shims with one symbolic translation component; z3 obligations per path; bounding-box lemma with 8 symbolic coordinates',
     bounds=dict(
         quick="5 pairs of concrete segments / 2-segment polylines (crossing, touching, parallel, disjoint; the cheap 14 of their 20 "
               "translation variants) under a translation "
